@@ -1,8 +1,8 @@
 import RedoModel.Paths
 /-
 Model of the project-base discovery of `Env::init` (src/env.rs, "if !get_bool(ENV_BASE)"): the directories of the
-requested targets (made absolute against the working directory and CLEANED — repaired in /repo, 19552e2) and the working
-directory itself are reduced to their longest common leading part; from there upwards the first directory that contains
+requested targets (made absolute against the working directory, symbolic links resolved and cleaned — repaired in /repo,
+19552e2 and the symlink repair of session 4) and the working directory itself are reduced to their longest common leading part; from there upwards the first directory that contains
 `.redo` is the base; if none does, the common part itself is (and `.redo` is created there).
 
 Paths are lists of characters; `hasRedo` stands for the file-system test `<dir>/.redo exists` on a cleaned absolute
@@ -17,9 +17,12 @@ def parentOf (t : List Char) : List Char :=
   | some (d, _) => d
   | none => []
 
-/-- The cleaned absolute directory of a target. -/
-def dirOf (cwd t : List Char) : List (List Char) :=
-  comps (normpath (absPath cwd (parentOf t)))
+/-- The absolute directory of a target with the symbolic links in it resolved the way the target's record key is
+resolved (`state::real_dir`: `realdirpath` of a name inside that directory, without the name — repaired in /repo; before,
+the directory was only cleaned, and a spelling through a symlinked directory could select another project database).
+`canon` stands for `Path::canonicalize`. -/
+def dirOf (canon : List Char → Option (List Char)) (cwd t : List Char) : List (List Char) :=
+  (comps (realdirpath canon cwd (pushPath (absPath cwd (parentOf t)) ['_']))).dropLast
 
 /-- Longest common leading part of two component lists. -/
 def common2 : List (List Char) → List (List Char) → List (List Char)
@@ -36,8 +39,9 @@ def upwards (cs : List (List Char)) : List (List (List Char)) :=
   (List.range (cs.length + 1)).reverse.map (fun k => cs.take k)
 
 /-- `Env::init`: the project base for a command run in `cwd` (cleaned, absolute) with the given target spellings. -/
-def baseOf (hasRedo : List (List Char) → Bool) (cwd : List Char) (targets : List (List Char)) : List (List Char) :=
-  let orig := commonAll (targets.map (dirOf cwd) ++ [comps cwd])
+def baseOf (canon : List Char → Option (List Char)) (hasRedo : List (List Char) → Bool) (cwd : List Char)
+    (targets : List (List Char)) : List (List Char) :=
+  let orig := commonAll (targets.map (dirOf canon cwd) ++ [comps cwd])
   match (upwards orig).find? hasRedo with
   | some b => b
   | none => orig
